@@ -7,6 +7,7 @@ import (
 	"time"
 
 	"verifharness/storeref"
+	"verifharness/vh"
 )
 
 // B2: schedules forced with the markers as gates. Each one is the counterexample TLC reports for a
@@ -262,7 +263,7 @@ func (d *driver) scenarioSharedAccessor(blocks []*block) {
 	}
 	base := openFDs(w.dir)
 	rec.start()
-	rounds := 24
+	rounds := vh.EnvInt("VERIF_SHARED_ROUNDS", 16)
 	for r := 0; r < rounds && !d.dead; r++ {
 		b := blocks[r%2]
 		d.doOp(w, nil, "PutODS", b, id)
@@ -287,7 +288,7 @@ func (d *driver) scenarioSharedAccessor(blocks []*block) {
 				<-start
 				rnd := rand.New(rand.NewSource(int64(r*10 + i)))
 				var all []storeref.Mismatch
-				for k := 0; k < 12; k++ {
+				for k := 0; k < 8; k++ {
 					// readers 0,1: lower half first (loads the in-memory square); 2,3: upper half rows
 					mm, n := storeref.ReadSome(d.ctx, accs[i], b.Ref, rnd, 1, i < 2)
 					d.rep.Count("reads_compared", int64(n))
